@@ -1458,9 +1458,11 @@ static C04Res c17Once(const Instance& I, const ParamSet& cfg, int loadMode, uint
       // same object, clearBasis, solve again
       SoPlex a;
       mk(a);
+      unsigned seed0 = a.randomSeed();
       a.optimize();
       std::string s1 = snapSol(a);
       a.clearBasis();
+      if(cli.extra.count("reseed")) a.setRandomSeed(seed0);
       a.optimize();
       std::string s2 = snapSol(a);
       if(count) S.count("c17.resolve_after_clearBasis");
